@@ -7,6 +7,18 @@ HERE = os.path.dirname(os.path.abspath(__file__))
 
 # property -> (technique, level text, level note, design ref)
 CLAIMED = {
+    "C01": (
+        "runtime reference-model monitor on final colour/depth buffers: the interpolated attribute is smuggled bit-exactly through the colour word; per-pixel f64 ideal-image oracle β = M⁻¹(X,Y,1) (no clipping, no scan conversion) with the property's own 0.02 px / 0.1 % ambiguity mask; differential check of the Batch and Camera front doors against render()",
+        "Scenes of 1..6 (thorough 1..12) clip-space triangles (w of either sign, every subset of planes crossed, exactly-on-plane values, two decades of magnitude, also view space through the library projections), seven attribute types (each component rendered), four target kinds, random viewports inside windows inside buffers ≤ 64x64, prior frames with sentinel colours and zero or random depths. Every unambiguous pixel is judged: inside the visible part of the nearest triangle ⇒ attribute within 0.5 % of range and reciprocal depth within 0.2 %; outside all visible parts, occluded by the prior depth, or outside the viewport ⇒ bit-for-bit unchanged. Batch::render and Camera::render must equal render() bit-for-bit and the camera image is judged by the same oracle.",
+        "Oracle in f64 on exact f32 clip coordinates; the real clipper's output is used only to mask internal fan edges; tolerances carry the 0.001 px first-order positional slack (DESIGN §10-2); on colour-only targets overlapped pixels are skipped.",
+        "DESIGN.md §5 C01",
+    ),
+    "C02": (
+        "runtime invariant monitor around render(): panic capture, sentinel-pattern comparison of every colour/depth cell outside the viewport (two different patterns), NaN scan of the depth buffer; hostile scene generator aimed at plane-, eye- and rounding-boundaries; Miri on a reduced workload (thorough)",
+        "Triangle soups over the stated numeric domain (far/near ≤ 1000, |coordinate| ≤ 1000·near, focal 0.1..10, orthographic boxes) with vertices exactly on and ±1 ulp of near/far/side planes, at and behind the eye plane, coincident, collinear, sub-pixel and huge, rendered through the library's own projection and viewport matrices into buffers from 1x1 to 128x96, every viewport shape, all four target kinds and all Context flag combinations with discarding and non-discarding shaders; both build profiles.",
+        "Bounds checks in safe Rust turn an out-of-range access into a panic, which is what is observed; the thorough tier's Miri pass covers the day that stops being true.",
+        "DESIGN.md §5 C02",
+    ),
     "C04": (
         "runtime reference-model monitor over the Scanline event stream of tri_fill: f64 edge-function coverage oracle with a 0.001 px band, structural stream checks (strictly increasing y, no pixel twice, xs length = fragment count), exhaustive half-pixel lattice + adversarial random families, all six vertex orders",
         "Every ordered vertex triple of a half-pixel lattice (531 441 triangles quick, 4.8 M thorough) and random integer/half-integer/dyadic/float, flat, one-row, sliver, sub-pixel and zero-area triangles (extent ≤ 64 px, all six vertex orders) are filled by the real tri_fill; every pixel centre of the bounding box +1 px is judged: inside and ≥ 0.001 px from every edge ⇒ in exactly one span, outside and ≥ 0.001 px away ⇒ in none. Fans of triangles sharing edges and a vertex are judged on their union. Extents 128..2048 are driven too; there the known f32 edge drift (finding F9) is matched by a narrow drift model, anything larger is a violation.",
